@@ -40,6 +40,21 @@ fn problem(kind: usize, x0: f64, span_signed: f64) -> Prob {
                 linear_homogeneous: true,
             }
         }
+        4 => {
+            // restricted domain: Gompertz y' = c r y ln(1/y), y(0) = 5 -> 1; the solution stays in
+            // y > 0 but a trial step that is far too long (first_step = span, loose tolerances)
+            // leaves it and the right-hand side answers NaN
+            let c = 1.0 / span_signed;
+            Prob {
+                name: "gompertz, domain y>0 (scaled to span)".into(),
+                n: 1,
+                f: Arc::new(move |_t, y, d| d[0] = c * 40.0 * y[0] * (1.0 / y[0]).ln()),
+                jac: Some(Arc::new(move |_t, y| vec![c * 40.0 * ((1.0 / y[0]).ln() - 1.0)])),
+                flow: None,
+                y0: vec![5.0],
+                linear_homogeneous: false,
+            }
+        }
         3 => {
             // starts at rest: y' = c (tau - y), y(0) = 0, so f(x0, y0) = 0 and the automatic
             // initial step falls back to its absolute default
@@ -222,7 +237,7 @@ pub fn run_check(replay: Option<Value>) -> i32 {
         dim("t_eval", &[false, true]),
         dim("dense", &[false, true]),
         dim("events", &evs),
-        dim("problem", &["decay(unscaled)", "oscillator", "nonautonomous", "starts-at-rest"]),
+        dim("problem", &["decay(unscaled)", "oscillator", "nonautonomous", "starts-at-rest", "gompertz(domain y>0)"]),
         dim("rtol", &tols),
         dim("max_steps", &["none", "4"]),
     ];
